@@ -19,7 +19,7 @@ char GSC1; char GSC2; char GSC3;
 #ifdef XML_GHOST_INLINE
 #define GLEN XML_SLEN(s)
 #define GWC (s)[GK]
-#define GIC XML_AT(self, __CPROVER_old(self->_cur) + GK)
+#define GIC XML_AT(self, OC + GK)
 #define MATCH_GHOST_DEF 1
 #else
 size_t GLEN; char GWC; char GIC;
@@ -90,7 +90,11 @@ size_t GLEN; char GWC; char GIC;
 #define PRODUCED_P1 ENS(RV && self->_producedTokens == OLD(self->_producedTokens) + 1)
 
 /* ---------------- skipSpaces / skipWhitespaceOutsideText ---------------- */
-#define DECL_skipSpaces(sym, POST) void sym(Parser *self) __CPROVER_requires(XML_PRE(self)) CUR_FRAME POST ;
+/* (SIG / PRE / FRAMELIST are separate so that unit xml_next can generate assert/havoc/assume stubs from the SAME parts) */
+#define SKIP_SIG(sym) void sym(Parser *self)
+#define SKIP_PRE XML_PRE(self)
+#define CUR_FRAMELIST self->_cur, self->_line, self->_col
+#define DECL_skipSpaces(sym, POST) SKIP_SIG(sym) __CPROVER_requires(SKIP_PRE) __CPROVER_assigns(CUR_FRAMELIST) POST ;
 /* S1 cursor monotone and <= n */
 #define SKIP_SAFE ENS(XML_CUR_INV(self) && self->_cur >= OC)
 /* S2 only white space is skipped; S3 all of it is skipped */
@@ -99,7 +103,8 @@ size_t GLEN; char GWC; char GIC;
 
 /* ---------------- matchString / matchWordCaseInsensitive ---------------- */
 #define MATCH_PRE (XML_PRE(self) && XML_SLEN(s) <= 7 && MATCH_GHOST_DEF)
-#define DECL_match(sym, POST) bool sym(Parser *self, const char *s) __CPROVER_requires(MATCH_PRE) CUR_FRAME POST ;
+#define MATCH_SIG(sym) bool sym(Parser *self, const char *s)
+#define DECL_match(sym, POST) MATCH_SIG(sym) __CPROVER_requires(MATCH_PRE) __CPROVER_assigns(CUR_FRAMELIST) POST ;
 /* M1 invariant; M2 a match consumes exactly the word; M3 a mismatch consumes nothing */
 #define MATCH_SAFE ENS(XML_CUR_INV(self)) ENS(RV ==> self->_cur == OC + GLEN) \
                    ENS(!RV ==> (self->_cur == OC && self->_line == OLD(self->_line) && self->_col == OLD(self->_col)))
@@ -163,9 +168,10 @@ size_t GLEN; char GWC; char GIC;
 
 /* ---------------- readText ---------------- */
 /* precondition from the call site in next(): !eof() and the next byte is not '<' */
-#define DECL_readText(sym, POST) bool sym(Parser *self, size_t startOffset, size_t startLine, size_t startCol) \
-  __CPROVER_requires(XML_PRE(self) && NOT_EOF && GOC_PRE != (char)60 && self->_producedTokens < (size_t)-1) \
-  __CPROVER_assigns(self->_cur, self->_line, self->_col, self->_hasError, self->_error, self->_token, self->_producedTokens) POST ;
+#define TOKEN_SIG(sym) bool sym(Parser *self, size_t startOffset, size_t startLine, size_t startCol)
+#define RTEXT_PRE (XML_PRE(self) && NOT_EOF && GOC_PRE != (char)60 && self->_producedTokens < (size_t)-1)
+#define TOKEN_FRAMELIST self->_cur, self->_line, self->_col, self->_hasError, self->_error, self->_token, self->_producedTokens
+#define DECL_readText(sym, POST) TOKEN_SIG(sym) __CPROVER_requires(RTEXT_PRE) __CPROVER_assigns(TOKEN_FRAMELIST) POST ;
 /* T1 cursor; T3 the span limit is tested BEFORE each step: never more than maxTextSpan bytes are taken;
  * T6 failure <=> error flag, and the only failure is the span limit; T7 token counter */
 #define RTEXT_SAFE ENS(XML_CUR_INV(self) && self->_cur >= OC) ENS(self->_cur - OC <= self->_opt.maxTextSpan) \
